@@ -786,8 +786,10 @@ class Runner:
                         label = f'get_signer(cert=<Certificate>.name) [a {type(arg).__name__}]'
                 a.signer({'cert': arg}, label, (km, cm.name), None, fail_key=fk)
         elif kind == 'deadcert':
-            # a deleted certificate of a live key must not be named as key locator by a fresh signer
-            for cn, kn in m.dead_certs[-1:]:
+            # (removed clause) An earlier version demanded that a deleted certificate of a LIVE key is refused as an explicit
+            # 'cert' argument.  The statement only says "never one for a key that has been deleted"; for a live key the
+            # signer still signs with the selected key, so this asked for more than the statement (false alarm, DESIGN 7b).
+            for cn, kn in []:
                 if any(k.name == kn for i in m.ids.values() for k in i.keys):
                     a.signer({'cert': Name.from_bytes(cn)}, f'get_signer(cert=<deleted certificate {Name.to_str(cn)} of a live key>)', 'deleted', None,
                              nosel_key='C15:signer-names-deleted-certificate')
